@@ -44,6 +44,46 @@ NumCases(zzdummy) ==
          numerals |-> IF ps[x][2] = 2 THEN <<t, <<49>>>> ELSE <<t>>,
          classes |-> IF ps[x][2] = 2 THEN <<Class(n), "int">> ELSE <<Class(n)>>]]
 
+(* neighbouring rows: consecutive containers that differ only in numbers which a tolerant comparison identifies (1 / 1.0, 2^53 /
+   2^53+1, neighbouring doubles): each row must keep its own numbers *)
+NearPairs == <<<<<<49>>, <<49,46,48>>>>,
+             <<<<49>>, <<49,101,48>>>>,
+             <<<<49,46,48>>, <<49>>>>,
+             <<<<57,48,48,55,49,57,57,50,53,52,55,52,48,57,57,50>>, <<57,48,48,55,49,57,57,50,53,52,55,52,48,57,57,51>>>>,
+             <<<<57,50,50,51,51,55,50,48,51,54,56,53,52,55,55,53,56,48,55>>, <<57,50,50,51,51,55,50,48,51,54,56,53,52,55,55,53,56,48,56>>>>,
+             <<<<49,56,52,52,54,55,52,52,48,55,51,55,48,57,53,53,49,54,49,52>>, <<49,56,52,52,54,55,52,52,48,55,51,55,48,57,53,53,49,54,49,53>>>>,
+             <<<<55,46,53>>, <<55,46,53,48,48,48,48,48,48,48,48,48,48,48,48,48,51>>>>,
+             <<<<48,46,51>>, <<48,46,51,48,48,48,48,48,48,48,48,48,48,48,48,48,48,48,52>>>>,
+             <<<<49,46,48>>, <<49,46,48,48,48,48,48,48,48,48,48,48,48,48,48,48,48,50>>>>,
+             <<<<49,48,48>>, <<49,101,50>>>>,
+             <<<<48>>, <<48,46,48>>>>,
+             <<<<48>>, <<45,48,46,48>>>>,
+             <<<<49,101,50,50>>, <<49,48,48,48,48,48,48,48,48,48,48,48,48,48,48,48,48,48,48,48,48,48,48>>>>,
+             <<<<45,49>>, <<45,49,46,48>>>>,
+             <<<<49,50,51,52,53,54,55,56,57,48,49,50>>, <<49,50,51,52,53,54,55,56,57,48,49,50,46,48>>>>,
+             <<<<50>>, <<50,46,48,48,48,48,48,48,48,48,48,48,48,48,48,48,48,52>>>>>>
+PairShapes(a, b) == << <<91, 91>> \o a \o <<93, 44, 91>> \o b \o <<93, 93>>,                                                   \* [[a],[b]]
+                       <<91, 123, 34, 107, 34, 58>> \o a \o <<125, 44, 123, 34, 107, 34, 58>> \o b \o <<125, 93>>,                \* [{"k":a},{"k":b}]
+                       <<91, 91>> \o a \o <<93, 44, 91>> \o b \o <<93, 44, 91>> \o a \o <<93, 93>>,                             \* [[a],[b],[a]]
+                       <<123, 34, 97, 34, 58, 91>> \o a \o <<93, 44, 34, 98, 34, 58, 91>> \o b \o <<93, 125>>,                    \* {"a":[a],"b":[b]}
+                       <<91>> \o a \o <<44>> \o b \o <<44>> \o a \o <<93>> >>                                                   \* [a,b,a]
+PairCases(zzdummy) ==
+  LET ps == SetToSeq({<<i, k>> : i \in DOMAIN NearPairs, k \in 1..5})
+  IN [x \in DOMAIN ps |->
+        LET a == NearPairs[ps[x][1]][1] b == NearPairs[ps[x][1]][2] k == ps[x][2] IN
+        [e |-> "json", kind |-> "num", text |-> PairShapes(a, b)[k],
+         numerals |-> IF k \in {3, 5} THEN <<a, b, a>> ELSE <<a, b>>, classes |-> <<>>]]
+
+(* long strings: multi-byte characters at every alignment around the 4096th and 8192nd byte of the printed text *)
+LongStrCases(zzdummy) ==
+  LET pads == SetToSeq({4085, 4086, 4087, 4088, 4089, 4090, 4091, 4092, 4093, 4094, 4095, 4096, 8181, 8182, 8183, 8184, 8185, 8186, 8187, 8188, 8189, 8190, 8191})
+      tail == <<233, 8364, 128512, 1114111, 233, 97, 26085, 26412, 35486>>
+  IN [i \in DOMAIN pads |-> [e |-> "json", kind |-> "str", text |-> <<34>> \o [j \in 1..pads[i] |-> 97] \o tail \o <<34>>, numerals |-> <<>>, classes |-> <<>>]]
+     \o << [e |-> "json", kind |-> "str", numerals |-> <<>>, classes |-> <<>>,
+            text |-> <<91>> \o JoinWith([j \in 1..500 |-> <<34, 26085, 26412, 35486, 34>>], <<44>>) \o <<93>>],
+           [e |-> "json", kind |-> "str", numerals |-> <<>>, classes |-> <<>>,
+            text |-> <<123>> \o JoinWith([j \in 1..300 |-> <<34, 233, 48 + (j \div 100), 48 + ((j \div 10) % 10), 48 + (j % 10), 8364, 34, 58, 34, 128512, 34>>], <<44>>) \o <<125>>] >>
+
 (* strings: items [c, st]: st 0 raw, 1 short escape, 2 \u lower-case hex, 3 \u upper-case hex (astral: surrogate pair) *)
 HexU(d) == IF d < 10 THEN 48 + d ELSE 55 + d
 U4U(cp) == <<cBSLASH, 117, HexU(cp \div 4096), HexU((cp \div 256) % 16), HexU((cp \div 16) % 16), HexU(cp % 16)>>
@@ -81,5 +121,5 @@ StructTexts == <<
   <<123,34,233,34,58,49,44,34,101,34,58,50,44,34,122,34,58,51,44,34,90,34,58,52,44,34,128512,34,58,53,44,34,65535,34,58,54,125>> >>
 StructCases(zzdummy) == [i \in DOMAIN StructTexts |-> [e |-> "json", kind |-> "struct", text |-> StructTexts[i], numerals |-> <<>>, classes |-> <<>>]]
 
-ASSUME ndJsonSerialize(IOEnv.OUT, NumCases(0) \o StrCases(0) \o StructCases(0))
+ASSUME ndJsonSerialize(IOEnv.OUT, NumCases(0) \o StrCases(0) \o StructCases(0) \o PairCases(0) \o LongStrCases(0))
 =============================================================================
